@@ -38,6 +38,29 @@ type c16Case struct {
 	NoAck bool `json:"no_ack_ever,omitempty"`
 	// Seq0: the transport numbers the client's first request 0
 	Seq0 bool `json:"first_request_numbered_zero,omitempty"`
+	// Before: setters called earlier on the same client in WaitForReply mode, each acknowledged with errno 0 and
+	// collected (SetImmutable among them: what one command did must not keep a later one from sending its request)
+	Before []string `json:"earlier_acknowledged_setters,omitempty"`
+}
+
+func c16Call(cl *libaudit.AuditClient, setter string, arg int64, wm libaudit.WaitMode) error {
+	switch setter {
+	case "SetPID":
+		return cl.SetPID(wm)
+	case "SetRateLimit":
+		return cl.SetRateLimit(uint32(arg), wm)
+	case "SetBacklogLimit":
+		return cl.SetBacklogLimit(uint32(arg), wm)
+	case "SetEnabled":
+		return cl.SetEnabled(arg != 0, wm)
+	case "SetImmutable":
+		return cl.SetImmutable(wm)
+	case "SetFailure":
+		return cl.SetFailure(libaudit.FailureMode(uint32(arg)), wm)
+	case "SetBacklogWaitTime":
+		return cl.SetBacklogWaitTime(int32(arg), wm)
+	}
+	return fmt.Errorf("no such setter %s", setter)
 }
 
 var c16Setters = []string{"SetPID", "SetRateLimit", "SetBacklogLimit", "SetEnabled", "SetImmutable", "SetFailure", "SetBacklogWaitTime"}
@@ -69,6 +92,18 @@ func c16Setter(c *mon.Ctx, k *c16Case) {
 				return
 			}
 		}
+	}
+	for i, b := range k.Before {
+		var perr error
+		if p, st := mon.Try(func() { perr = c16Call(cl, b, 1, libaudit.WaitForReply) }); p != nil {
+			c.Violation("panic", fmt.Sprintf("%s panicked: %v\n%s", b, p, st), k)
+			return
+		}
+		if perr != nil || len(sim.Sent) != i+1 {
+			c.Violation("setter-after-setter", fmt.Sprintf("earlier setter #%d %s(WaitForReply), acknowledged with errno 0, returned %v and %d requests are on the wire (want nil and %d); earlier setters %v", i+1, b, perr, len(sim.Sent), i+1, k.Before[:i]), k)
+			return
+		}
+		first++
 	}
 	wm := libaudit.WaitForReply
 	if k.NoWait {
@@ -110,6 +145,9 @@ func c16Setter(c *mon.Ctx, k *c16Case) {
 		return
 	}
 	desc := fmt.Sprintf("%s(%d) nowait=%v prior=%q x%d", k.Setter, k.Arg, k.NoWait, k.Prior, first)
+	if len(k.Before) > 0 {
+		desc += fmt.Sprintf(" after acknowledged %v", k.Before)
+	}
 	// with an unread ACK of an earlier NoWait request a WaitForReply setter reads that ACK as its own (known
 	// finding of C17): its return value is not judged here, its request is
 	judgeReply := (k.Prior == "" || k.NoWait) && !(k.NoAck && !k.NoWait)
@@ -127,7 +165,7 @@ func c16Setter(c *mon.Ctx, k *c16Case) {
 	}
 	for i := 0; i < first; i++ {
 		if pm := sim.Sent[i]; pm.Type != uapi.MsgSet || pm.Flags != uapi.NlmFRequest|uapi.NlmFAck {
-			c.Violation("setter-flags", fmt.Sprintf("%s: the earlier NoWait SetRateLimit #%d went out with type %d flags %#x, want AUDIT_SET with NLM_F_REQUEST|NLM_F_ACK (0x5)", desc, i+1, pm.Type, pm.Flags), k)
+			c.Violation("setter-flags", fmt.Sprintf("%s: the earlier request #%d went out with type %d flags %#x, want AUDIT_SET with NLM_F_REQUEST|NLM_F_ACK (0x5)", desc, i+1, pm.Type, pm.Flags), k)
 			return
 		}
 	}
@@ -159,6 +197,12 @@ func c16Setter(c *mon.Ctx, k *c16Case) {
 	}
 	if !judgeReply {
 		c.Add("setters_with_an_unread_earlier_ack", 1)
+		return
+	}
+	if len(k.Before) > 0 {
+		if !k.NoWait && sim.NDeliver != first+1 {
+			c.Violation("wait-receives", fmt.Sprintf("%s: %d datagrams consumed by %d WaitForReply setters, want one ACK each", desc, sim.NDeliver, first+1), k)
+		}
 		return
 	}
 	if k.NoWait && sim.NRecv != 0 {
@@ -368,6 +412,28 @@ func c16Run(c *mon.Ctx) {
 			}
 		}
 	}
+	// histories on one client: every ordered pair and triple of setters (SetImmutable first, in the middle, last)
+	for _, a := range c16Setters {
+		for _, b := range c16Setters {
+			for _, nw := range []bool{false, true} {
+				cases = append(cases, &c16Case{Kind: "setter", Setter: b, Arg: 1, NoWait: nw, Before: []string{a}})
+				for _, a0 := range c16Setters {
+					cases = append(cases, &c16Case{Kind: "setter", Setter: b, Arg: 1, NoWait: nw, Before: []string{a0, a}})
+				}
+			}
+		}
+	}
+	for i := 0; i < c.Pick(3000, 300000); i++ {
+		r := c.Rand(3, uint64(i))
+		k := &c16Case{Kind: "setter", Setter: mon.Pick(r, c16Setters), Arg: int64(r.Uint32()), NoWait: r.Bool()}
+		for j := 3 + r.Intn(10); j > 0; j-- {
+			k.Before = append(k.Before, mon.Pick(r, c16Setters))
+		}
+		if k.Setter == "SetBacklogWaitTime" {
+			k.Arg = int64(int32(k.Arg))
+		}
+		cases = append(cases, k)
+	}
 	nrand := c.Pick(20000, 6000000)
 	for i := 0; i < nrand; i++ {
 		r := c.Rand(1, uint64(i))
@@ -381,7 +447,10 @@ func c16Run(c *mon.Ctx) {
 	c.ForEach(len(cases), func(w, i int) {
 		c16Setter(c, cases[i])
 		ev.Add(1)
-		nt.AddString(fmt.Sprintf("%s/%d/%v/%s/%v", cases[i].Setter, cases[i].Arg, cases[i].NoWait, cases[i].Prior, cases[i].NoAck))
+		nt.AddString(fmt.Sprintf("%s/%d/%v/%s/%v/%v", cases[i].Setter, cases[i].Arg, cases[i].NoWait, cases[i].Prior, cases[i].NoAck, cases[i].Before))
+		if len(cases[i].Before) > 0 {
+			c.Add("setters_after_other_acknowledged_setters", 1)
+		}
 		if c.WantSample() {
 			c.Sample(cases[i])
 		}
@@ -421,7 +490,7 @@ func c16Run(c *mon.Ctx) {
 func init() {
 	register(&mon.CheckSpec{
 		ID: "C16", Level: "exploration",
-		Rule: "cases = every Set* command x {all uint32/int32 boundary values, both booleans, all failure modes incl. the exported names, random values} x both wait modes (also as the 2nd..301st request in a row of uncollected NoWait requests, and as a request that the transport numbers 0), observed as the NetlinkMessage handed to a simulated kernel's Send and decoded word by word at the UAPI audit_status offsets (one request, type 1001, flags REQUEST|ACK, 44-byte payload, exactly one mask bit, the value in its field, every other word zero; NoWait does no receive); the 21 exported numbers against the kernel's; GetStatus's request (one AUDIT_GET, REQUEST|ACK, empty) and its decoding of replies of every length 0..96; FromWireFormat on every buffer length 0..96 x random / all-ones / all-zero contents with a garbage-prefilled receiver and the input ending at a PROT_NONE page. The same cases run a second time under the race detector (checkptr) and, in the thorough tier, under ASan. distinct_nontrivial = distinct (setter, value, mode) triples and distinct buffers.",
+		Rule: "cases = every Set* command x {all uint32/int32 boundary values, both booleans, all failure modes incl. the exported names, random values} x both wait modes (also as the 2nd..301st request in a row of uncollected NoWait requests, as a request that the transport numbers 0, and after every ordered pair and triple - plus random runs of 3-12 - of other setters that were acknowledged and collected on the same client, SetImmutable included), observed as the NetlinkMessage handed to a simulated kernel's Send and decoded word by word at the UAPI audit_status offsets (one request, type 1001, flags REQUEST|ACK, 44-byte payload, exactly one mask bit, the value in its field, every other word zero; NoWait does no receive); the 21 exported numbers against the kernel's; GetStatus's request (one AUDIT_GET, REQUEST|ACK, empty) and its decoding of replies of every length 0..96; FromWireFormat on every buffer length 0..96 x random / all-ones / all-zero contents with a garbage-prefilled receiver and the input ending at a PROT_NONE page. The same cases run a second time under the race detector (checkptr) and, in the thorough tier, under ASan. distinct_nontrivial = distinct (setter, value, mode) triples and distinct buffers.",
 		Assumptions: []string{
 			"expected offsets, mask bits and numbers come from internal/uapi (hand-written from linux/audit.h, self-tested against the system header)",
 			"a field the buffer reaches only partially may be zero or hold the reached low bytes (the statement does not define it)",
